@@ -13,7 +13,7 @@ from .poly import Poly, parr, pvars, frac, z3mod, is_scalar
 SCALAR_OUT = {'norm1', 'norm2', 'norminf', 'sumsqr', 'quad', 'entropy', 'max', 'pnorm', 'gmean', 'kldiv', 'sumexp', 'sumlog'}
 CURV = {'abs': 1, 'norm1': 1, 'norm2': 1, 'norminf': 1, 'square': 1, 'sumsqr': 1, 'quad': 1, 'exp': 1,
         'log': -1, 'entropy': -1, 'softplus': 1, 'max': 1, 'pnorm': 1, 'power': 1, 'gmean': -1,
-        'pexp': 1, 'plog': -1}
+        'pexp': 1, 'plog': -1, 'kldiv': 1, 'sumexp': 1, 'sumlog': -1}
 
 
 class OAtom:
@@ -287,7 +287,7 @@ def cons_z3(c, env, eps=0):
     return out
 
 
-EXP_KINDS = ('exp', 'log', 'pexp', 'plog', 'softplus', 'entropy', 'sumexp', 'sumlog')
+EXP_KINDS = ('exp', 'log', 'pexp', 'plog', 'softplus', 'entropy', 'sumexp', 'sumlog', 'kldiv')
 
 
 def exp_le(a, env):
@@ -298,6 +298,8 @@ def exp_le(a, env):
        plog     (k<0)  s*log(e/s) >= g                       <=>  (g, e, s) in K
        softplus (k>0)  log(1+exp(u)) <= -o, o = off/k        <=>  phi(u+o,1) + phi(o,1) <= 1
        entropy  (k<0)  -sum x log x >= g                     <=>  exists w: sum w >= g, (w_i, 1, x_i) in K
+       kldiv    (k>0)  sum p log(p/q) <= r, q > 0 constant   <=>  exists u (= -w/q): -sum q_i u_i <= r, (u_i, 1, p_i/q_i) in K
+                       (p log(p/q) <= w  <=>  (p/q) log(p/q) <= w/q  <=>  (p/q) exp(-(w/q)/(p/q)) <= 1)
     Existential auxiliaries are fresh variables recorded in env.exist (witnesses are supplied by the caller
     when the constraint appears negated)."""
     z3 = env.z3
@@ -309,7 +311,7 @@ def exp_le(a, env):
         args = _bcast_phi(a, args)
     one = z3.RealVal(1)
     out = []
-    if kind in ('exp', 'pexp', 'softplus', 'sumexp') and k <= 0 or kind in ('log', 'plog', 'entropy', 'sumlog') and k >= 0:
+    if kind in ('exp', 'pexp', 'softplus', 'sumexp', 'kldiv') and k <= 0 or kind in ('log', 'plog', 'entropy', 'sumlog') and k >= 0:
         raise ValueError('non-convex use in the oracle')
     kinv = z3.RealVal(str(1 / abs(k)))
     if kind == 'exp':
@@ -343,6 +345,19 @@ def exp_le(a, env):
             out.append(expcone(z3, w, e, one))
         out.append(z3.Sum(ws) >= g)
         env.exist = getattr(env, 'exist', []) + [(w, 'sumlog', e) for w, e in zip(ws, args)]
+    elif kind == 'kldiv':
+        r = -offs[0] * kinv
+        qs = [frac(v) for v in np.array(a.params, dtype=object).reshape(-1)]
+        if len(qs) == 1:
+            qs = qs * len(args)
+        ws = []
+        for e, q in zip(args, qs):
+            w = env.new('w')
+            ws.append(w)
+            qi = z3.RealVal(str(1 / q))
+            out.append(expcone(z3, w, one, e * qi))          # w stands for -w_i/q_i (keeps the bound variable bare)
+        out.append(z3.Sum([-z3.RealVal(str(q)) * w for w, q in zip(ws, qs)]) <= r)
+        env.exist = getattr(env, 'exist', []) + [(w, 'kldiv', e) for w, e in zip(ws, args)]
     elif kind == 'entropy':
         g = offs[0] * kinv
         ws = []
@@ -454,6 +469,10 @@ def atom_eval(a, args):
         return [math.log1p(math.exp(v)) for v in args]
     if k == 'entropy':
         return [float(-sum(v * math.log(v) for v in args if v > 0))] if all(v >= 0 for v in args) else [-1e300]
+    if k == 'kldiv':
+        qs = [float(frac(v)) for v in np.array(a.params, dtype=object).reshape(-1)]
+        qs = qs * len(args) if len(qs) == 1 else qs
+        return [float(sum(v * math.log(v / q) for v, q in zip(args, qs) if v > 0))] if all(v >= 0 for v in args) else [1e300]
     if k == 'sumexp':
         return [float(sum(math.exp(v) for v in args))]
     if k == 'sumlog':
